@@ -1,47 +1,57 @@
 """Enumeration of panic sites (C06-R1) with semantic, line-free descriptors."""
+import re
+
 from .facts import strip_generics, show_place
 
 
-def operand_origin(body, block_idx, op, depth=0):
-    """Pretty origin of an operand: constants by value, temporaries traced through copies in the same block to a
-    user-visible place (local name / field path)."""
-    if op['k'] == 'const':
-        return op['val'] if op['val'] is not None else op['txt']
-    p = op['place']
-    if depth > 8:
-        return show_place(p, body)
-    if p['proj'] and p['local'] not in body.local_names:
-        # projections applied to a temporary: name the temporary first
-        base = operand_origin(body, block_idx, {'k': 'copy', 'place': {'local': p['local'], 'proj': []}}, depth + 1)
-        if body.kind == 'Closure' and p['local'] == 1:
-            fs = [e for e in p['proj'] if e['k'] == 'field']
-            if len(fs) >= 1 and fs[0]['i'] in body.upvar_names:
-                base = 'upvar:' + body.upvar_names[fs[0]['i']][0]
-                rest = p['proj'][p['proj'].index(fs[0]) + 1:]
-                return base + ''.join('.' + e['name'] for e in rest if e['k'] == 'field')
-        out = base
-        for e in p['proj']:
-            if e['k'] == 'field':
-                out += '.' + e['name']
-            elif e['k'] == 'downcast':
-                out += ' as ' + e['variant']
-            elif e['k'] == 'index':
-                out += '[]'
-        return out.replace('&', '')
-    if p['proj'] or p['local'] in body.local_names:
-        return show_place(p, body).replace('(*', '').replace(')', '')
-    # temp: find its single assignment in this block (or any block if unique)
+def _defs_of(body, local):
     defs = []
     for bi, bl in enumerate(body.blocks):
+        if bl['cleanup']:
+            continue
         for s in bl['stmts']:
-            if 'lhs' in s and s['lhs']['local'] == p['local'] and not s['lhs']['proj']:
+            if 'lhs' in s and s['lhs']['local'] == local and not s['lhs']['proj']:
                 defs.append((bi, s))
         t = bl['term']
-        if t['k'] == 'call' and t['dest']['local'] == p['local'] and not t['dest']['proj']:
+        if t['k'] == 'call' and t['dest']['local'] == local and not t['dest']['proj']:
             defs.append((bi, t))
-    if len(defs) != 1:
-        return show_place(p, body)
-    bi, d = defs[0]
+    return defs
+
+
+def _is_step_of(body, local, op, depth=0):
+    """op is `(local checked+/- const).0` (possibly through temporaries)."""
+    if op['k'] == 'const' or depth > 4:
+        return False
+    p = op['place']
+    fields = [e for e in p['proj'] if e['k'] == 'field']
+    ds = _defs_of(body, p['local'])
+    if len(ds) != 1 or 'rv' not in ds[0][1]:
+        return False
+    rv = ds[0][1]['rv']
+    if rv['k'] == 'use' and not fields:
+        return _is_step_of(body, local, rv['op'], depth + 1)
+    if rv['k'] == 'binop' and rv['op'] in ('AddWithOverflow', 'SubWithOverflow', 'Add', 'Sub', 'AddUnchecked', 'SubUnchecked'):
+        a, b = rv['a'], rv['b']
+        return a['k'] != 'const' and not a['place']['proj'] and a['place']['local'] == local and b['k'] == 'const'
+    return False
+
+
+def local_origin(body, local, depth=0):
+    """Name-free description of a local: `self`/`argN` for parameters; the origin of its single definition; `counter`
+    for a local that is initialised with a constant and only ever stepped by a constant; its name as a last resort."""
+    if 1 <= local <= body.argc:
+        return 'self' if body.local_names.get(local) == 'self' else 'arg%d' % local
+    defs = _defs_of(body, local)
+    if len(defs) == 1 and depth <= 40:
+        return _def_origin(body, defs[0], depth + 1)
+    if defs and all('rv' in d and ((d['rv']['k'] == 'use' and (d['rv']['op']['k'] == 'const' or _is_step_of(body, local, d['rv']['op'])))
+                                   ) for bi, d in defs):
+        return 'counter:%s' % body.locals[local]
+    return body.local_names.get(local, '_%d' % local)
+
+
+def _def_origin(body, d, depth):
+    bi, d = d
     if 'rv' in d:
         rv = d['rv']
         if rv['k'] == 'use':
@@ -54,11 +64,48 @@ def operand_origin(body, block_idx, op, depth=0):
         if rv['k'] == 'ref':
             return operand_origin(body, bi, {'k': 'copy', 'place': rv['place']}, depth + 1)
         if rv['k'] == 'discr':
-            return 'discr(%s)' % show_place(rv['place'], body)
+            return 'discr(%s)' % operand_origin(body, bi, {'k': 'copy', 'place': rv['place']}, depth + 1)
         return rv['k']
-    # call
     return '%s(%s)' % (strip_generics(d['res'] or d['decl']).split('::')[-1],
                        ','.join(operand_origin(body, bi, a, depth + 1) for a in d['args']))
+
+
+def operand_origin(body, block_idx, op, depth=0):
+    """Name-free origin of an operand: constants by value; parameters by position; temporaries and named locals traced
+    through their single definition to a field path / call result (see local_origin)."""
+    if op['k'] == 'const':
+        return op['val'] if op['val'] is not None else op['txt']
+    p = op['place']
+    if depth > 44:
+        return show_place(p, body)
+    if body.kind == 'Closure' and p['local'] == 1 and p['proj']:
+        fs = [e for e in p['proj'] if e['k'] == 'field']
+        if len(fs) >= 1 and fs[0]['i'] in body.upvar_names:
+            # a captured place `self.inner` is named `self__inner`; a captured variable is named after the variable
+            # of the enclosing function: describe it the way the enclosing function would
+            parts = body.upvar_names[fs[0]['i']][0].split('__')
+            base = 'upvar:' + parts[0]
+            par = body.facts.by_name.get(body.parent or '', [])
+            if len(par) == 1:
+                idx = [i for i, n in par[0].local_names.items() if n == parts[0]]
+                if len(idx) == 1:
+                    base = local_origin(par[0], idx[0], depth + 1)
+            base = '.'.join([base] + parts[1:])
+            rest = p['proj'][p['proj'].index(fs[0]) + 1:]
+            return base + ''.join('.' + e['name'] for e in rest if e['k'] == 'field')
+    out = local_origin(body, p['local'], depth + 1)
+    for e in p['proj']:
+        if e['k'] == 'field':
+            out += '.' + e['name']
+        elif e['k'] == 'downcast':
+            out += ' as ' + e['variant']
+        elif e['k'] == 'index':
+            out += '[]'
+    out = out.replace('&', '')
+    # `x?` and an explicit `match x { Ok(v) => v, .. }` name the same value
+    out = re.sub(r'branch\((.*)\) as Continue\.0', r'\1.ok', out)
+    out = out.replace(' as Ok.0', '.ok').replace(' as Some.0', '.some')
+    return out
 
 
 def panic_sites(facts, skip=lambda b: False):
